@@ -3,7 +3,7 @@
 From Coq Require Import List Arith.
 From Pcfg Require Import Session SessionProofs.
 From PcfgGen Require Import Consts_gen.
-From Coq Require Import ZArith.
+From Coq Require Import ZArith NArith.
 From Pcfg Require Import SessionRt SessionModel SessionModelProofs SessionGenProofs.
 From PcfgGen Require Import Session_gen.
 Import ListNotations.
@@ -139,6 +139,31 @@ Example C12_source_example :
   sw_saves (snd (src_run sch pts [] (fun _ _ => []) 4 false None (w_init None None))) = [(None, None); (Some 2, Some 2)].
 Proof. exact session_world_example. Qed.
 
+
+(* ---- the keyboard thread: gen/Session_gen.v also holds the translation of keypress.  In the
+   world of the thread (SessionModel.kworld: the lines input() will return, each with whether
+   stderr still works while it is handled, or an error of input(); the end of the list is end of
+   file) the translated function ends for every list of inputs (fuel above their number is never
+   exhausted), writes nothing to stdout, and leaves pcfg.should_exit exactly as the events
+   [kp_trace] of Session.v say under h_step: only a line 'q' - read while the main thread is
+   alive and handled while stderr works - sets the flag, and the thread ends right after it;
+   end of file, an error of input(), a dead main thread and a failing print to stderr end
+   the thread WITHOUT setting the flag (the R5 repair) ---- *)
+Theorem C12_source_keypress_is_model : forall (fuel : nat) (w : kworld), length (kw_inputs w) < fuel ->
+  exists w', src_keypress fuel w = (SOk tt, [], w') /\
+    kw_flag w' = should_exit (h_steps {| alive := true; should_exit := kw_flag w |}
+                                      (kp_trace (kw_main_alive w) (kw_inputs w))) /\
+    alive (h_steps {| alive := true; should_exit := kw_flag w |} (kp_trace (kw_main_alive w) (kw_inputs w))) = false.
+Proof. exact keypress_is_trace. Qed.
+
+Example C12_source_keypress_example :
+  src_keypress 5 (mkK [KLine [] true; KLine [104%N] true; KLine [113%N] true; KLine [] true] true true false)
+  = (SOk tt, [], mkK [KLine [] true] true true true) /\
+  src_keypress 5 (mkK [KLine [] true; KLine [113%N] false] true true false) = (SOk tt, [], mkK [] false true false) /\
+  kp_trace true [KLine [] true; KLine [104%N] true; KLine [113%N] true; KLine [] true]
+  = [EvStatus; EvHelp; EvQuitFlag; EvThreadEnds].
+Proof. exact keypress_example. Qed.
+
 Print Assumptions C12_schedule_independent.
 Print Assumptions C12_prefix.
 Print Assumptions C12_quit_boundary.
@@ -146,3 +171,4 @@ Print Assumptions C12_finished.
 Print Assumptions C12_source_run_is_model.
 Print Assumptions C12_source_run_is_run_session.
 Print Assumptions C12_source_quit_boundary.
+Print Assumptions C12_source_keypress_is_model.
